@@ -32,3 +32,14 @@ claim("C03", "HandshakeEvil", "model_checking", "§6 C03",
   TB + "Only CLAIMTOBE completes as an exchange against the scripted peer (forged method internals are C11 / C18); resumed sessions are assumed established under the same policy; the reported method is compared with what ran only when Authentication=true.",
   "TLA+ model checking (TLC) + spec->code replay against an independent scripted peer (terminal-state membership) + code->spec trace validation of handshake outcomes",
   "spec/HandshakeEvil.tla", "TLA+ spec of one endpoint's handshake against a scripted-evil peer; harness/internal/peer + evilreplay replay it")
+
+claim("C05", "Server", "model_checking", "§6 C05",
+  "TLC exhaustively checks HandlerOnlyOnAdequateSession / RawAuthSeparated / RefusedClosesWithoutHandler on Server.tla (3 authenticated commands with different policies + 1 raw, <= 2 (quick) / 3 (thorough) commands per connection, 2 connections, honest / key-agreement-skipping / unauthenticated clients, policy and authorizer changes between connections); every TLC-enumerated client script is executed against a real server.Server over an in-memory connection (real client handshakes, follow-on commands, reconnect-and-resume, raw path), the handler log with Stream.IsEncrypted() observed inside the handler, and the recorded trace is accepted or rejected by TLC (Server_Trace.tla); the Dispatch events of the repository's own server tests are validated too (ServerDispatch_Trace / ConnLifecycle_Trace).",
+  TB + "Authentication is CLAIMTOBE only, identities come through FQUMapper, reconfiguration happens only between connections, two connections maximum; the verdict is trace acceptance by a permissive spec (differences from the deterministic intended design are only counted).",
+  "TLA+ model checking (TLC) + generated-script replay against server.ServeConn + TLC trace validation of the recorded handler log",
+  "spec/Server.tla", "TLA+ spec of the command server's dispatch loop; harness/internal/srvreplay replays TLC-generated client scripts and validates the recorded traces")
+claim("C16", "ClaimSession", "model_checking", "§6 C16",
+  "TLC checks SameSession / ResumesBothWays / WrongSecretFails / PublicFormHidesSecret / PolicyRoundTrips on a token-level grammar model of claim ids (ClaimSession.tla) over all 3 240 configurations (address shape x encryption x integrity x cipher list x command list x lifetime x version form x direction) x {same, corrupted} secret (pairwise + grammar-edge cover in quick); every behaviour is replayed against the real MintClaimSession / ImportClaimSession / ImportFileTransferSession on two caches (claim text equals the model's rendering, key bytes equal an independent HKDF, expiry, policy attributes) plus two real handshakes naming the session in the configured direction, and PublicClaimID is searched for the secret.",
+  TB + "WrongSecretFails is judged on the working session (no application message is delivered in either direction); concrete addresses are one representative per shape; 64-hex secrets only.",
+  "TLA+ model checking (TLC) + conformance replay with rendered-text comparison and an independent HKDF reference",
+  "spec/ClaimSession.tla", "TLA+ spec of claim-id minting / import / resumption; harness/internal/claimreplay replays it")
